@@ -759,7 +759,7 @@ def exBinTime : LPType :=
 
 /-- The time regime holds types on a binary encoding. -/
 theorem exBinTime_wf : TimeWF exBinTime :=
-  Or.inr { tag := Or.inl rfl, notNum := fun ne h => (by cases h), enc := BinWF.fixed 56 (by decide), noEnum := rfl,
+  Or.inr { tag := Or.inl rfl, notNum := fun ne h => (by cases h), enc := BinWF.fixed 56, noEnum := rfl,
            epoch := by decide, offsetFrom := by decide }
 
 end Spp.C09
